@@ -18,7 +18,7 @@ ASSUMPTIONS = ["hpgeom.pixel_ranges_to_pixels = concatenation of half-open range
 
 
 def histories(rng, tier):
-    n = 150 if tier == 'quick' else 3000
+    n = 400 if tier == 'quick' else 3000
     out = []
     for _ in range(n):
         c = gen.rand_cfg(rng, max_npix=768, name='a')
